@@ -55,6 +55,29 @@ static std::string show(const Object& o, size_t consumed) {
   return b;
 }
 
+// A destination that already holds a value: the decoders must return what the INPUT denotes, whatever it held.
+static Object dirty(int k) {
+  Object o;
+  if (k == 0) {
+    o = Object::create_map();
+    o.as_map()["zz"] = Object((int64_t)1);
+    o.set_internal_flags(Object::flag_unordered);
+    o.set_flags(Object::flag_session_data);
+  } else if (k == 1) {
+    o = Object::create_list();
+    o.as_list().push_back(Object(std::string("old")));
+    o.set_flags(Object::flag_static_data);
+  } else {
+    o = Object(std::string("old string"));
+    o.set_flags(Object::flag_session_data);
+  }
+  return o;
+}
+
+static std::string show_f(const Object& o, size_t consumed) {
+  return show(o, consumed) + " f=" + std::to_string(o.flags() & Object::mask_public);
+}
+
 static std::string decode_all(const std::string& in) {
   std::string out;
   {
@@ -63,6 +86,19 @@ static std::string decode_all(const std::string& in) {
     try {
       Object o;
       const char* e = torrent::object_read_bencode_c(buf.p, buf.p + buf.n, &o);
+      std::string fresh = show_f(o, e - buf.p), dep;
+      for (int k = 0; k < 3 && dep.empty(); k++) {
+        Object d = dirty(k);
+        const char* e2 = torrent::object_read_bencode_c(buf.p, buf.p + buf.n, &d);
+        if (show_f(d, e2 - buf.p) != fresh) dep = show_f(d, e2 - buf.p);
+      }
+      for (int k = 0; k < 3 && dep.empty(); k++) {
+        std::istringstream ss(std::string(in.data(), e - buf.p));
+        Object d = dirty(k);
+        ss >> d;
+        if (!ss.fail() && (d.flags() & Object::mask_public) != 0) dep = "stream " + show_f(d, 0);
+      }
+      if (!dep.empty()) out += "DEST-DEPENDENT " + dep + " fresh ";
       out += show(o, e - buf.p);
     } catch (torrent::bencode_error&) { out += "REJECT";
     } catch (torrent::internal_error&) { out += "ERR:internal";
